@@ -225,6 +225,12 @@ class C12Oracle(Oracle):
             if ep.terminated or ep.broken or ep.crashed:
                 pend.clear()
                 continue
+            paths = getattr(ep.conn, "_network_paths", None)
+            if not ep.is_client and paths and not paths[0].is_validated:
+                # after a client address change the server may not even send acknowledgements beyond three
+                # times what it received on the new path: not judged until the path is validated
+                pend.clear()
+                continue
             # only lateness injected by the harness counts (a connection that keeps asking for a
             # deadline in the past is late by its own doing); respin back-off is at most 20 ms
             late = min(self.sim.last_timer_injected.get(name, 0.0), 0.021)
